@@ -102,6 +102,7 @@ type c02Case struct {
 	Raw       string       `json:"raw_b64,omitempty"` // literal seed bytes when there is no fixture
 	Muts      []Mut        `json:"muts,omitempty"`
 	Contain   bool         `json:"contain,omitempty"`
+	ScanOpts  int          `json:"scan_opts,omitempty"` // containment scans: 1 ErrorOnFSErrors, 2 StoreAbsolutePath, 4 UseGitignore, 8 PrintDurationAnalysis
 	Healthy   []healthyRef `json:"healthy,omitempty"`
 }
 
@@ -338,21 +339,31 @@ func genC02(t *rapid.T) c02Case {
 	}
 	c.Contain = rapid.IntRange(0, 3).Draw(t, "contain") == 0
 	if c.Contain {
-		pool := healthy()
-		if len(pool) >= 3 {
-			start := rapid.IntRange(0, len(pool)-1).Draw(t, "healthy")
-			for i := 0; i < len(pool) && len(c.Healthy) < 2; i++ {
-				h := pool[(start+i*7)%len(pool)]
-				if compatible(e, c.Path, h, len(c.Healthy)+1, c.Healthy) {
-					c.Healthy = append(c.Healthy, h)
-				}
-			}
-		}
-		if len(c.Healthy) < 2 {
-			c.Contain, c.Healthy = false, nil
-		}
+		pickHealthy(&c, e, rapid.IntRange(0, len(healthy())).Draw(t, "healthy"))
+		c.ScanOpts = rapid.SampledFrom(scanOptChoices).Draw(t, "scan_opts")
 	}
 	return c
+}
+
+// scanOptChoices are the option sets of containment scans (see scanTree).
+var scanOptChoices = []int{0, 0, 1, 1, 1, 2, 3, 4, 5, 8, 15}
+
+// pickHealthy chooses the two healthy neighbours of a containment case, starting the search
+// at pool index start; it clears Contain when the pool has no compatible pair.
+func pickHealthy(c *c02Case, e *extInfo, start int) {
+	pool := healthy()
+	c.Healthy = nil
+	if len(pool) >= 3 {
+		for i := 0; i < len(pool) && len(c.Healthy) < 2; i++ {
+			h := pool[(start+i*7)%len(pool)]
+			if compatible(e, c.Path, h, len(c.Healthy)+1, c.Healthy) {
+				c.Healthy = append(c.Healthy, h)
+			}
+		}
+	}
+	if len(c.Healthy) < 2 {
+		c.Contain, c.Healthy = false, nil
+	}
 }
 
 // ---------------------------------------------------------------------------------------
@@ -853,7 +864,7 @@ func checkContainment(e *extInfo, c c02Case, data []byte) error {
 		exts = append(exts, he)
 	}
 	caps := capsFor(e)
-	before, p := scanTree(root, exts, caps)
+	before, p := scanTree(root, exts, caps, c.ScanOpts)
 	if p != "" {
 		return fmt.Errorf("scan of the tree WITHOUT the offending file panics: %s", p)
 	}
@@ -868,7 +879,7 @@ func checkContainment(e *extInfo, c c02Case, data []byte) error {
 	if err := writeFileAt(root, c.Path, data, e.execPath(c.Path)); err != nil {
 		return fmt.Errorf("harness: %w", err)
 	}
-	after, p := scanTree(root, exts, caps)
+	after, p := scanTree(root, exts, caps, c.ScanOpts)
 	if p != "" {
 		return fmt.Errorf("scan of the tree with the offending file for %s at %s panics although Extract returned an error when called directly: %s", c.Extractor, c.Path, p)
 	}
